@@ -12,8 +12,9 @@ R(w, a) == [w |-> w, a |-> a]
 P(ch)            == [k |-> "P",   ch |-> ch, lvl |-> 0, how |-> "", num |-> "", tb |-> NoTbl]
 H(l, how)        == [k |-> "H",   ch |-> <<R("r", <<"t">>)>>, lvl |-> l, how |-> how, num |-> "", tb |-> NoTbl]
 LI(l, num)       == [k |-> "LI",  ch |-> <<R("r", <<"t">>)>>, lvl |-> l, how |-> "", num |-> num, tb |-> NoTbl]
-T(r, c, hm, vm, mp) == [k |-> "TBL", ch |-> <<>>, lvl |-> 0, how |-> "", num |-> "",
-                        tb |-> [rows |-> r, cols |-> c, hm |-> hm, vm |-> vm, mp |-> mp]]
+TR(r, c, hm, vm, mp, rc) == [k |-> "TBL", ch |-> <<>>, lvl |-> 0, how |-> "", num |-> "",
+                             tb |-> [rows |-> r, cols |-> c, hm |-> hm, vm |-> vm, mp |-> mp, rc |-> rc]]
+T(r, c, hm, vm, mp) == TR(r, c, hm, vm, mp, <<>>)
 
 D(f, body, h, g) == [fmt |-> f, body |-> body, hdr |-> h, ftr |-> g]
 
@@ -33,7 +34,7 @@ ShapesA(f) ==
     {P(<<R("r", <<"t">>)>>), P(<<R("r", <<"t">>), R("span", <<"t">>)>>),
      H(1, "builtin"), H(2, IF f = "docx" THEN "custom1" ELSE "outline"), H(3, "outline"),
      LI(0, "bullet"), LI(1, "bullet"), LI(0, "decimal"),
-     T(1, 1, <<>>, <<>>, <<>>), T(1, 1, <<>>, <<>>, << <<1, 1>> >>), T(1, 2, <<>>, <<>>, <<>>)}
+     T(1, 1, <<>>, <<>>, <<>>), T(1, 1, <<>>, <<>>, << <<1, 1>> >>), TR(1, 2, <<>>, <<>>, <<>>, << <<1, 2>> >>)}
 
 DocsA(n) == UNION {{D(f, b, 0, 0) : b \in {x \in SeqsUpTo(ShapesA(f), n) : ListOK(x)}} : f \in Fmts}
 
@@ -46,13 +47,17 @@ DocsB(mc, ma) == UNION {{D(f, <<P(ch)>>, 0, 0) : ch \in {x \in SeqsUpTo(Children
 MM(md) == IF md <= 2 THEN 2 ELSE 1
 PosSet(r, c) == {<<i, j>> : i \in 1..r, j \in 1..c}
 SmallSeqs(S, n) == {<<>>} \cup {<<x>> : x \in S} \cup (IF n >= 2 THEN {<<x, y>> : x \in S, y \in S} ELSE {})
-TablesC(md) == {t \in {T(r, c, hm, vm, mp) : r \in 1..md, c \in 1..md,
-                       hm \in SmallSeqs(PosSet(md, md), MM(md)), vm \in SmallSeqs(PosSet(md, md), MM(md)),
-                       mp \in SmallSeqs(PosSet(md, md), 2)} :
-               /\ TblOK(t.tb)
-               \* one canonical order for two-element position lists
-               /\ \A s \in {t.tb.hm, t.tb.vm, t.tb.mp} :
-                     Len(s) = 2 => (s[1][1] < s[2][1] \/ (s[1][1] = s[2][1] /\ s[1][2] < s[2][2]))}
+\* first the merge skeletons (validity decided before cell contents are chosen), then
+\* at most one two-paragraph cell and at most one rich cell among the anchors
+Skeletons(md) == {t \in {TR(r, c, hm, vm, <<>>, <<>>) : r \in 1..md, c \in 1..md,
+                            hm \in SmallSeqs(PosSet(md, md), MM(md)), vm \in SmallSeqs(PosSet(md, md), MM(md))} :
+                    /\ TblOK(t.tb)
+                    \* one canonical order for two-element position lists
+                    /\ \A s \in {t.tb.hm, t.tb.vm} :
+                          Len(s) = 2 => (s[1][1] < s[2][1] \/ (s[1][1] = s[2][1] /\ s[1][2] < s[2][2]))}
+TablesC(md) == UNION {{TR(t.tb.rows, t.tb.cols, t.tb.hm, t.tb.vm, mp, rc) :
+                          mp \in SmallSeqs(ToSet(Anchors(t.tb)), 1), rc \in SmallSeqs(ToSet(Anchors(t.tb)), 1)} :
+                      t \in Skeletons(md)}
 Plain == P(<<R("r", <<"t">>)>>)
 DocsC(md) == LET tc == TablesC(md) IN
              {D(f, <<t>>, 0, 0) : f \in Fmts, t \in tc}
